@@ -3,6 +3,8 @@
 package main
 
 import (
+	"regexp"
+
 	"github.com/google/pprof/profile"
 )
 
@@ -136,7 +138,7 @@ func c17Gen(r *Rng, mode string, n int) c17Case {
 		var names []string
 		for _, f := range p.Function {
 			if f.Name != "" && len(f.Name) < 40 {
-				names = append(names, f.Name)
+				names = append(names, regexp.QuoteMeta(f.Name))
 			}
 		}
 		change := func(a c17Req) c17Req { // exactly one parameter differs (or, rarely, none: a reload)
